@@ -218,9 +218,12 @@ def judge(c, acks, q):
                 out.append(("recent-not-newest-first", "dag %r n=%d: %r" % (c["dags"][d], n, got))); continue
             optional = [k for k in allowed if k not in must]
             M = sorted(must.values(), key=lambda r: -r["t"])
-            for i, r in enumerate(M):
+            for r in M:
                 newer_opt = sum(1 for k in optional if allowed[k]["t"] >= r["t"])
-                if i + newer_opt < n and r["req"] not in reqs:
+                # runs that may legitimately be listed before r: strictly newer ones AND runs started in the same
+                # millisecond (the property leaves the order of equal start times open)
+                ahead = sum(1 for q in M if q is not r and q["t"] >= r["t"])
+                if ahead + newer_opt < n and r["req"] not in reqs:
                     out.append(("recent-hides-acknowledged-run" + (":run-listed-twice-original-and-twin" if dup else ""), "dag %r n=%d: got %r, acknowledged run %s (%r) missing" % (c["dags"][d], n, got, r["req"], r["p"])))
                     break
     return out
